@@ -17,7 +17,7 @@ VERUS_UNITS = {
     'U-ENC-V': dict(module='contracts.verus.yaml_encoding', min_verified=15, timeout=600,
                     native_search=dict(src='src/yaml/encoding.rs', file='encoder_search.rs'),
                     props=['C07', 'C02', 'C04', 'C05', 'C12', 'C01']),
-    'U-MP-X': dict(module='contracts.verus.msgpack_transcode', min_verified=25, timeout=600,
+    'U-MP-X': dict(module='contracts.verus.msgpack_transcode', min_verified=27, timeout=600,
                    native_search=dict(src='src/msgpack.rs', file='msgpack_search.rs'),
                    props=['C03', 'C18', 'C04', 'C02', 'C06']),
     'U-VAL-V': dict(module='contracts.verus.transcode_value', min_verified=3, timeout=600,
@@ -477,11 +477,10 @@ PROPERTIES = {
                     'Lemmas: monotone in d; every shape of k collections (arrays, maps via value, maps via key) around a scalar is accepted iff k+1 <= d; '
                     'with DEPTH_LIMIT extracted from the source: 1023 accepted, 1024 rejected; rmp_value (assumed spec of rmp_serde) implies mp_value. '
                     'Kani: the length readers assumed by Verus are proved on their real bodies; every slice-path deserializer gets set_max_depth(DEPTH_LIMIT). '
-                    'Verus U-MP-X: every deserializer that msgpack::transcode offers to the output -- slice path and reader path, any number of documents -- carries set_max_depth(DEPTH_LIMIT) (precondition-contract on Output::transcode_from).',
+                    'Verus U-MP-X: every deserializer that msgpack::transcode offers to the output -- slice path and reader path, any number of documents -- carries set_max_depth(DEPTH_LIMIT) (precondition-contract on Output::transcode_from); the two detection trials match_input_buffer / match_input_reader (verbatim) run their parse only on a deserializer with set_max_depth(DEPTH_LIMIT) (precondition-contract on the IgnoredAny stand-in).',
         assumptions=['rmp_value is a hand transcription of rmp-serde 1.1.2 decode.rs (depth_count! on arrays, maps and ext); not machine-checked against the crate',
                      'JSON/YAML/TOML nesting limits are library defaults (not under contract)', 'process stack survival is not modelled'],
-        not_covered=['JSON, YAML and TOML depth limits', 'stack safety of the real binary', 'reader-mode verdict is rmp_serde\'s own (assumed spec)',
-                     'set_max_depth on the two detection deserializers (match_input_buffer / match_input_reader; three-line functions, stubbed in U-MP-G)']),
+        not_covered=['JSON, YAML and TOML depth limits', 'stack safety of the real binary', 'reader-mode verdict is rmp_serde\'s own (assumed spec)']),
 }
 
 
